@@ -110,7 +110,7 @@ def gen_case(run_seed: int, index: int, tier: str) -> dict:
     # ---- the check step
     kind = rng.choice(["all_symbols", "all_pairs", "random", "random"]) if M <= 16 else rng.choice(["all_symbols", "random"])
     layout = rng.choice(["1d", "2d", "2d", "2d", "3d"])
-    rows = {"1d": 1, "2d": rng.choice([1, 2, 3]), "3d": 4}[layout]
+    rows = {"1d": 1, "2d": rng.choice([1, 2, 3, 3, 8]), "3d": 4}[layout]
     seqs = []
     for _ in range(rows):
         if kind == "all_symbols":
@@ -121,10 +121,11 @@ def gen_case(run_seed: int, index: int, tier: str) -> dict:
         elif kind == "all_pairs":
             syms = _all_pairs_sequence(M, rng)
         else:
-            syms = [rng.randrange(M) for _ in range(rng.choice([2, 3, 4, 7, 16, 33]))]
+            syms = [rng.randrange(M) for _ in range(rng.choice([2, 3, 4, 7, 16, 33, 64, 200]))]
         seqs.append(_bits_for_symbols(syms, bps))
     L = min(len(s) for s in seqs)
-    case["check"] = {"layout": layout, "kind": kind, "bits": [s[:L] for s in seqs]}
+    case["check"] = {"layout": layout, "kind": kind, "bits": [s[:L] for s in seqs],
+                     "dtype": rng.choice(["float32", "float32", "float64", "int64"]), "noncontig": rng.random() < 0.2}
     return case
 
 
@@ -206,11 +207,15 @@ def execute(case: dict) -> RunResult:
     rows = chk["bits"]
     nbits = len(rows[0])
     nsym = nbits // bps
-    x = torch.tensor(rows, dtype=torch.float32)
+    x = torch.tensor(rows, dtype={"float32": torch.float32, "float64": torch.float64, "int64": torch.int64}[chk.get("dtype", "float32")])
+    if chk.get("noncontig") and x.shape[0] > 1:
+        x = x.t().contiguous().t()  # same bits, non-contiguous memory
+        res.probes["input.noncontiguous"] += 1
     if chk["layout"] == "1d":
         x = x[0]
     elif chk["layout"] == "3d":
         x = x.reshape(2, 2, nbits)
+    res.probes[f"bits.dtype.{chk.get('dtype', 'float32')}"] += 1
     x0 = x.clone()
     if nsym >= 2 and (scheme not in MEMORY or dirtied or chk["kind"] == "all_pairs"):
         res.nontrivial.append(core.short_hash(case))
